@@ -61,6 +61,12 @@ def gen_cases(tier, seed):
             rng = bases.rng_for("C01", seed, tier, "window", la, lb, t)
             shells, classes = bases.window_pair(rng, la, lb, tmin=t, tmax=t + 2)
             cases.append({"shells": shells, "classes": classes + ["l:%d,%d" % (la, lb), "nsh:2", "window-sweep"], "cost": 40})
+    # tight functions far from the origin
+    for k in range(6 if tier == "quick" else 48):
+        rng = bases.rng_for("C01", seed, tier, "tight-far", k)
+        la, lb = int(rng.integers(0, 4)), int(rng.integers(0, 4))
+        shells, classes = bases.tight_far_pair(rng, la, lb)
+        cases.append({"shells": shells, "classes": classes + ["l:%d,%d" % (la, lb), "nsh:2"], "cost": 30})
     cases += bases.dup_variants("C01", seed, tier, cases, 9)  # one shell listed twice as the same object
     return cases
 
